@@ -42,6 +42,26 @@ def expr_texts(rng, n):
     return out
 
 
+def expr_grid(rng, n):
+    """every binary operator of #expr between operands from the edges of its domain: small and huge integers, floats, huge and
+    tiny floats of both signs, integers that are results of functions, floats that are results of '/', '^' and literals"""
+    OPERANDS = ["0", "1", "5", "-5", "1234", "0.5", "2.5", "-0.5", "1e400", "1.0e300", "-1.0e300", "1.0e-300", "2^40", "-(2^40)",
+                "(0 - 2^40)", "10^300", "-(10^300)", "99999999", "-99999999", "1.0e9", "-1.0e9", "1e9", "-1e9", "trunc 1234",
+                "floor 7.5", "ceil -7.5", "(4/2)", "(1/3)", "1.0e308", "-1.0e308", "308", "-308", "309", "-309", "1.5e10", "-1.5e10",
+                "abs -3", "sqrt 16", "pi", "(7 mod 3)", "1.0e15", "-1.0e15", "2^62", "2^64", "-(2^64)"]
+    OPS = ["round", "^", "e", "mod", "div", "/", "*", "+", "-", "=", "<", "and"]
+    out = [("#expr", "{{#expr: %s %s %s}}" % (a, op, b)) for op in ("round", "^", "e", "mod") for a in OPERANDS for b in OPERANDS]
+    for _ in range(n):
+        out.append(("#expr", "{{#expr: %s %s %s %s %s}}" % (rng.choice(OPERANDS), rng.choice(OPS), rng.choice(OPERANDS),
+                                                           rng.choice(OPS), rng.choice(OPERANDS))))
+    if len(out) > 4 * n + 2000:
+        head = out[:len(OPERANDS) ** 2]                    # the whole 'round' grid always runs
+        rest = out[len(OPERANDS) ** 2:]
+        rng.shuffle(rest)
+        out = head + rest[:4 * n]
+    return out
+
+
 # minimised earlier failures: always run (first in the batch)
 PF_CORPUS = [
     # argument names that str.isdigit() accepts but int() rejects
@@ -176,7 +196,8 @@ def run(run):
     # ---- (b)(c) parser functions
     from wikitextprocessor.parserfns import PARSER_FUNCTIONS
     names = sorted(PARSER_FUNCTIONS)
-    calls = PF_CORPUS + pf_texts(rng, names, 2 if quick else 12) + expr_texts(rng, 600 if quick else 20000)
+    calls = PF_CORPUS + pf_texts(rng, names, 2 if quick else 12) + expr_texts(rng, 600 if quick else 20000) \
+        + expr_grid(rng, 600 if quick else 20000)
     # several calls on one page (failures of one call must not disturb the next): unknown functions, bad arguments and good
     # calls side by side, also inside a template argument and repeated
     # (the two functions whose known finding is a missing database table are left to their single-call pages)
@@ -199,10 +220,28 @@ def run(run):
             part = items[k:k + 200]
             jobs.append({"texts": [t for _, t in part], "title": title, "_timeout": 120})
             meta.append((title, part))
-    res = lib.run_impl("expand_many", jobs, shards=lib.NCPU)
+    res = lib.run_impl("expand_many", jobs, shards=lib.NCPU, timeout=400)
     for (title, part), r in zip(meta, res):
         if r.get("outcome") != "ok":
-            run.property_failure("pf-batch:%s" % r.get("outcome"), "batch did not finish: %r" % (r,), {"title": title, "texts": [t for _, t in part][:5]})
+            # which call of the batch is it?  every text once more, alone, with a short limit
+            singles = []
+            for k0 in range(0, len(part), 32):          # one process per call: a call that hangs in C code takes nothing with it
+                sub = part[k0:k0 + 32]
+                singles += lib.run_impl("expand_many", [{"texts": [t], "title": title, "_timeout": 10} for _, t in sub],
+                                        shards=len(sub), timeout=14)
+            found = False
+            for (fn, t), r1 in zip(part, singles):
+                if r1.get("outcome") != "ok":
+                    found = True
+                    run.property_failure("pf-does-not-return:%s" % fn, "expand(%r) on page %r did not return within 10 s (%s)"
+                                         % (t, title, r1.get("outcome")), {"title": title, "texts": [t]})
+                elif r1["outs"][0][0] != "ok":
+                    found = True
+                    run.property_failure(classify_exc(fn, r1["outs"][0]), "%r on page %r raised %r" % (t, title, r1["outs"][0]),
+                                         {"title": title, "texts": [t]})
+            if not found:
+                run.property_failure("pf-batch:%s" % r.get("outcome"), "batch did not finish: %r" % (r,),
+                                     {"title": title, "texts": [t for _, t in part][:5]})
             continue
         for (fn, t), o in zip(part, r["outs"]):
             run.count(["pf", title, t], True, "pf")
